@@ -23,8 +23,9 @@ from __future__ import annotations
 import ast
 from typing import Dict, List, Optional, Set
 
+from ..astutil import Origins
 from ..cfg import ReachingDefs
-from ..loader import FuncInfo, Program, enclosing_stmt, parent, short, walk_own
+from ..loader import ClassInfo, FuncInfo, Program, enclosing_stmt, parent, short, walk_own
 from ..report import BAD, INFO, OK, Instance
 
 INT_ANN = {"int", "MaybeInt", "Optional[int]", "int | None", "Union[int, None]", "Optional[MaybeInt]"}
@@ -185,6 +186,7 @@ def rule_isnum(prog: Program, modules: Optional[Set[str]] = None) -> List[Instan
         params = set(fi.param_names())
         if fi.parent is not None:
             params |= set(fi.parent.param_names())
+        org = None
         for n in walk_own(fi.node):
             if not (isinstance(n, ast.Call) and isinstance(n.func, ast.Name) and n.func.id == "isinstance" and len(n.args) == 2):
                 continue
@@ -193,8 +195,15 @@ def rule_isnum(prog: Program, modules: Optional[Set[str]] = None) -> List[Instan
             names = {k.id for k in ks if isinstance(k, ast.Name)}
             if not names or not names <= {"int", "float"} or len(names) != len(ks):
                 continue
-            if not (isinstance(subj, ast.Name) and subj.id in params):
+            if not isinstance(subj, ast.Name):
                 continue
+            if subj.id not in params:
+                # an element of a parameter (loop / comprehension variable over it, unpacked item): same values
+                if org is None:
+                    org = Origins(fi)
+                loopvar = any(isinstance(x, (ast.comprehension, ast.For)) and any(isinstance(y, ast.Name) and y.id == subj.id for y in ast.walk(x.target)) for x in ast.walk(fi.node))
+                if not (org.roots(subj) & params) or not loopvar:
+                    continue
             n_sites += 1
             # only where the test *dispatches* (if / elif / ternary / boolean operand), not inside an assert
             p = parent(n)
@@ -211,4 +220,259 @@ def rule_isnum(prog: Program, modules: Optional[Set[str]] = None) -> List[Instan
                                 f"`{short(n)}` decides which form of `{subj.id}` was passed by testing for the built-in {sorted(names)}: a numpy scalar (np.int64 from a shape or np.arange, np.float32 from an array) is neither and takes the other branch; test numbers.Integral / numbers.Real", fi.where(n)))
     out.append(Instance("R-ISNUM", f"{'+'.join(sorted(modules)) if modules else 'package'}#isnum-scan", OK if not any(i.status == BAD for i in out) else INFO,
                         f"{n_sites} isinstance(<parameter>, int/float) dispatch sites", ""))
+    return out
+
+
+# ---------------------------------------------------------------------------------------------
+# R-VALUEOBJ EQSYM: cross-type equality has to be accepted from both sides
+# ---------------------------------------------------------------------------------------------
+def rule_eqsym(prog: Program, modules: Optional[Set[str]] = None) -> List[Instance]:
+    """`a == b` calls `type(a).__eq__` (unless type(b) is a subclass of type(a)). If `A.__eq__` has a branch that
+    accepts instances of an unrelated package class B (`isinstance(other, B)` leading to anything but `return
+    False` / NotImplemented), then `B.__eq__` must accept A the same way, otherwise `a == b` and `b == a`
+    differ (and, through containers that compare members, so does equality of everything holding them).
+    Decides which types each `__eq__` lets in, not what it compares."""
+    out: List[Instance] = []
+
+    def accepted(ci: ClassInfo) -> Set[str]:
+        eq = ci.methods.get("__eq__")
+        if eq is None:
+            return set()
+        pp = eq.positional_params()
+        if len(pp) < 2:
+            return set()
+        other = pp[1].arg
+        acc: Set[str] = set()
+        for n in walk_own(eq.node):
+            if isinstance(n, ast.Call) and isinstance(n.func, ast.Name) and n.func.id == "isinstance" and len(n.args) == 2 and isinstance(n.args[0], ast.Name) and n.args[0].id == other:
+                ks = n.args[1].elts if isinstance(n.args[1], ast.Tuple) else [n.args[1]]
+                for k in ks:
+                    nm = k.id if isinstance(k, ast.Name) else (k.attr if isinstance(k, ast.Attribute) else None)
+                    if nm:
+                        acc.add(nm)
+        return acc
+
+    by_name: Dict[str, List[ClassInfo]] = {}
+    for ci in prog.classes.values():
+        by_name.setdefault(ci.name, []).append(ci)
+    n = 0
+    for ci in sorted(prog.classes.values(), key=lambda c: c.qual):
+        if modules is not None and ci.mod.name not in modules:
+            continue
+        acc = accepted(ci)
+        if not acc:
+            continue
+        fam = {c.name for c in ci.mro()}
+        for nm in sorted(acc - fam):
+            for other_ci in by_name.get(nm, []):
+                if ci.name in {c.name for c in other_ci.mro()}:
+                    continue  # subclass of ci: Python tries the subclass' __eq__ first
+                n += 1
+                back = accepted(other_ci)
+                # the other side lets A in if it names A or one of A's bases
+                ok = bool(back & fam) or "__eq__" not in other_ci.methods and False
+                eq = ci.methods["__eq__"]
+                out.append(Instance("R-VALUEOBJ", f"{ci.qual}#EQSYM:{nm}", OK if ok else BAD,
+                                    f"{ci.name}.__eq__ accepts {nm} and {nm}.__eq__ accepts {sorted(back & fam)}" if ok else
+                                    f"{ci.name}.__eq__ has a branch for {nm} instances but {nm}.__eq__ lets in only {sorted(back) or 'nothing'}: `{ci.name.lower()} == {nm.lower()}` can be True while `{nm.lower()} == {ci.name.lower()}` is False - equality is not symmetric (and not transitive through the third class)", eq.where()))
+    out.append(Instance("R-VALUEOBJ", f"{'+'.join(sorted(modules)) if modules else 'package'}#EQSYM-scan", OK if not any(i.status == BAD for i in out) else INFO,
+                        f"{n} cross-type equality branches between unrelated package classes", ""))
+    return out
+
+
+# ---------------------------------------------------------------------------------------------
+# R-SHIFTIDX: a shifted index (`a[i + 1]`) is used where the guard above it admits negative i
+# ---------------------------------------------------------------------------------------------
+def rule_shiftidx(prog: Program, modules: Optional[Set[str]] = None) -> List[Instance]:
+    """numpy/list indexing wraps negative positions, so `a[i]` with -n <= i < 0 is the i-th element from the
+    end - but `a[i + 1]` is then *not* the element after it once i + 1 reaches 0 (`a[-1 + 1]` is `a[0]`).
+    Where the path condition at a shifted subscript states a range for the index whose lower bound is negative
+    (`-n <= i < n`: the author's own belief that negative indexes arrive here), the index has to be re-based
+    (`i = n + i`) first. Contradiction rule: fires only when the guard itself admits negatives."""
+    from ..cfg import Conditions
+    from .guards import conds_at
+
+    out: List[Instance] = []
+    n_sites = 0
+    for fi in prog.all_functions(modules):
+        subs = []
+        for n in walk_own(fi.node):
+            if isinstance(n, ast.Subscript) and isinstance(n.slice, ast.BinOp) and isinstance(n.slice.op, (ast.Add, ast.Sub)):
+                l, r = n.slice.left, n.slice.right
+                if isinstance(l, ast.Name) and isinstance(r, ast.Constant) and isinstance(r.value, int) and r.value != 0:
+                    subs.append((n, l.id))
+        if not subs:
+            continue
+        cond = Conditions(fi.body)
+        for n, var in subs:
+            n_sites += 1
+            neg_lower = None
+            for e, pol in conds_at(cond, enclosing_stmt(n)):
+                if not pol or not isinstance(e, ast.Compare):
+                    continue
+                terms = [e.left] + list(e.comparators)
+                for k, op in enumerate(e.ops):
+                    a, b = terms[k], terms[k + 1]
+                    # lower bound of var:  L <= var / L < var   or   var >= L / var > L
+                    lo = None
+                    if isinstance(b, ast.Name) and b.id == var and isinstance(op, (ast.LtE, ast.Lt)):
+                        lo = a
+                    if isinstance(a, ast.Name) and a.id == var and isinstance(op, (ast.GtE, ast.Gt)):
+                        lo = b
+                    if lo is not None and (isinstance(lo, ast.UnaryOp) and isinstance(lo.op, ast.USub) or (isinstance(lo, ast.Constant) and isinstance(lo.value, (int, float)) and lo.value < 0)):
+                        neg_lower = e
+            if neg_lower is not None:
+                out.append(Instance("R-SHIFTIDX", f"{fi.qual}#shiftidx:{short(n, 30)}", BAD,
+                                    f"`{short(n)}` shifts an index that the guard `{short(neg_lower)}` allows to be negative: for {var} = -1 the shifted position is 0, the first element, not the one after the last - negative indexes must be re-based ({var} = n + {var}) before they are shifted", fi.where(n)))
+    out.append(Instance("R-SHIFTIDX", f"{'+'.join(sorted(modules)) if modules else 'package'}#shiftidx-scan", OK if not any(i.status == BAD for i in out) else INFO,
+                        f"{n_sites} shifted subscripts (a[i + k]), none under a guard that admits a negative index", ""))
+    return out
+
+
+# ---------------------------------------------------------------------------------------------
+# R-SWALLOW: a refusal turned into a definite answer
+# ---------------------------------------------------------------------------------------------
+def rule_swallow(prog: Program, modules: Optional[Set[str]] = None) -> List[Instance]:
+    """A package helper that cannot answer raises (roi_shape: "Can't determine shape of the slice with open
+    right-hand side"). A predicate (`-> bool`) that wraps such a call in try/except and returns a boolean
+    constant from the handler turns "cannot tell" into a definite yes/no. Comparison dunders are exempt (an
+    operand that cannot be interpreted is simply unequal)."""
+    out: List[Instance] = []
+    n_sites = 0
+    for fi in prog.all_functions(modules):
+        top = fi
+        while top.parent is not None:
+            top = top.parent
+        ann = top.node.returns if hasattr(top.node, "returns") else None
+        own_ann = fi.node.returns if hasattr(fi.node, "returns") else None
+        is_pred = any(a is not None and short(a) == "bool" for a in (ann, own_ann))
+        if not is_pred or (fi.name.startswith("__") and fi.name.endswith("__")) or (top.name.startswith("__") and top.name.endswith("__")):
+            continue
+        for n in walk_own(fi.node):
+            if not isinstance(n, ast.Try):
+                continue
+            # only where the guarded call is a package function (its raise is a refusal we can read)
+            guarded = [c for st in n.body for c in ast.walk(st) if isinstance(c, ast.Call)]
+            pkg = [c for c in guarded if prog.resolve_call(c, fi)]
+            if not pkg:
+                continue
+            for h in n.handlers:
+                n_sites += 1
+                rets = [r for st in h.body for r in ast.walk(st) if isinstance(r, ast.Return) and isinstance(r.value, ast.Constant) and isinstance(r.value.value, bool)]
+                if rets:
+                    out.append(Instance("R-SWALLOW", f"{fi.qual}#swallow:{short(h.type) if h.type is not None else 'bare'}", BAD,
+                                        f"`except {short(h.type) if h.type is not None else ''}: return {rets[0].value.value}` in a predicate: `{short(pkg[0], 40)}` raises when it cannot tell, the handler answers {rets[0].value.value} instead - for some inputs that definite answer is wrong", fi.where(h)))
+    out.append(Instance("R-SWALLOW", f"{'+'.join(sorted(modules)) if modules else 'package'}#swallow-scan", OK if not any(i.status == BAD for i in out) else INFO,
+                        f"{n_sites} exception handlers around package calls inside predicates, none returns a boolean constant", ""))
+    return out
+
+
+# ---------------------------------------------------------------------------------------------
+# R-UNITS: densification step handed to to_crs() is in the units of the geometry being converted
+# ---------------------------------------------------------------------------------------------
+def rule_units(prog: Program, modules: Optional[Set[str]] = None) -> List[Instance]:
+    """`g.to_crs(target, resolution=E)` densifies g *before* projecting: E is a length in g's own CRS. A step
+    computed from the target side (the grid's tile size / pixel size, i.e. from what the target CRS expression
+    itself depends on) is in the wrong units - degrees vs metres - and silently switches densification off
+    (or floods the geometry with vertices). Accepted: "auto", or anything derived from g."""
+    out: List[Instance] = []
+    n_sites = 0
+    for fi in prog.all_functions(modules):
+        org = None
+        for n in walk_own(fi.node):
+            if not (isinstance(n, ast.Call) and isinstance(n.func, ast.Attribute) and n.func.attr == "to_crs" and n.args):
+                continue
+            res = next((k.value for k in n.keywords if k.arg == "resolution"), n.args[1] if len(n.args) > 1 else None)
+            if res is None or isinstance(res, ast.Constant):
+                continue
+            if org is None:
+                org = Origins(fi)
+            n_sites += 1
+            # what the converted geometry is: the names in the receiver and the parameters it originates from (not
+            # everything an earlier/later re-binding of the same name mentions - `g = g.to_crs(self.crs, ..)`)
+            geom_names = {x.id for x in ast.walk(n.func.value) if isinstance(x, ast.Name)} | org.roots(n.func.value)
+            tgt_names = org.deps_names(n.args[0]) - geom_names
+            res_names = org.deps_names(res)
+            wrong = sorted(res_names & tgt_names)
+            if wrong and not (res_names & geom_names - tgt_names):
+                out.append(Instance("R-UNITS", f"{fi.qual}#units:{short(res, 30)}", BAD,
+                                    f"`{short(n, 70)}`: the densification step `{short(res)}` comes from {wrong}, the side that defines the *target* CRS, but it is applied in the CRS of `{short(n.func.value)}` before projecting: for a lon/lat polygon and a metre grid it is read as degrees and nothing is densified", fi.where(n)))
+    out.append(Instance("R-UNITS", f"{'+'.join(sorted(modules)) if modules else 'package'}#units-scan", OK if not any(i.status == BAD for i in out) else INFO,
+                        f"{n_sites} to_crs calls with a computed densification step, none computed from the target side", ""))
+    return out
+
+
+# ---------------------------------------------------------------------------------------------
+# R-REVRANGE: the reversed twin of range(a, b) is range(b - 1, a - 1, -1)
+# ---------------------------------------------------------------------------------------------
+def rule_revrange(prog: Program, modules: Optional[Set[str]] = None) -> List[Instance]:
+    """Two alternatives (arms of a conditional expression, or if/else assigning the same name) that walk the same
+    half-open interval forwards `range(a, b)` and backwards `range(p, q, -1)` visit the same elements only if
+    p is b - 1 and q is a - 1. Sibling-agreement rule; fires only when both forms occur as alternatives."""
+    out: List[Instance] = []
+    n_sites = 0
+
+    def rng(e: ast.AST):
+        return e if isinstance(e, ast.Call) and isinstance(e.func, ast.Name) and e.func.id == "range" else None
+
+    def minus1(e: ast.AST, base: ast.AST) -> bool:
+        return isinstance(e, ast.BinOp) and isinstance(e.op, ast.Sub) and isinstance(e.right, ast.Constant) and e.right.value == 1 and short(e.left) == short(base)
+
+    for fi in prog.all_functions(modules):
+        pairs = []
+        for n in walk_own(fi.node):
+            if isinstance(n, ast.IfExp) and rng(n.body) and rng(n.orelse):
+                pairs.append((n.body, n.orelse, n))
+            if isinstance(n, ast.If) and len(n.body) == 1 and len(n.orelse) == 1 and all(isinstance(s, ast.Assign) and len(s.targets) == 1 for s in (n.body[0], n.orelse[0])):
+                a, b = n.body[0], n.orelse[0]
+                if short(a.targets[0]) == short(b.targets[0]) and rng(a.value) and rng(b.value):
+                    pairs.append((a.value, b.value, n))
+        for x, y, node in pairs:
+            fwd = next((r for r in (x, y) if len(r.args) == 2), None)
+            bwd = next((r for r in (x, y) if len(r.args) == 3 and isinstance(r.args[2], ast.UnaryOp) and isinstance(r.args[2].op, ast.USub) and const_is(r.args[2].operand, 1)), None)
+            if fwd is None or bwd is None:
+                continue
+            n_sites += 1
+            a, b = fwd.args
+            ok = minus1(bwd.args[0], b) and minus1(bwd.args[1], a)
+            out.append(Instance("R-REVRANGE", f"{fi.qual}#revrange:{short(bwd, 30)}", OK if ok else BAD,
+                                f"`{short(bwd)}` is `{short(fwd)}` backwards" if ok else
+                                f"`{short(bwd)}` is offered as the reverse of `{short(fwd)}` but visits {short(bwd.args[0])} .. {short(bwd.args[1])}+1: the reverse of a half-open range is range({short(b)} - 1, {short(a)} - 1, -1) - one element is skipped at one end and one outside the interval is visited at the other", fi.where(bwd)))
+    out.append(Instance("R-REVRANGE", f"{'+'.join(sorted(modules)) if modules else 'package'}#revrange-scan", OK if not any(i.status == BAD for i in out) else INFO,
+                        f"{n_sites} forward/backward range alternatives", ""))
+    return out
+
+
+def const_is(e: ast.AST, v) -> bool:
+    return isinstance(e, ast.Constant) and e.value == v
+
+
+# ---------------------------------------------------------------------------------------------
+# R-IMPORTTIME: a "unique" name computed once at import
+# ---------------------------------------------------------------------------------------------
+UNIQUE_MAKERS = {"uuid4", "uuid1", "mkdtemp", "mkstemp", "token_hex", "token_urlsafe", "getpid", "time", "time_ns", "monotonic", "random", "randint"}
+
+
+def rule_importtime(prog: Program, modules: Optional[Set[str]] = None) -> List[Instance]:
+    """uuid4() & co. are called to get a name nobody else uses. Evaluated at module level the value is fixed at
+    import: every call of the functions that use it - and every thread - shares the one name (temporary files of
+    overlapping calls overwrite each other)."""
+    out: List[Instance] = []
+    n_mods = 0
+    for mname, mi in sorted(prog.modules.items()):
+        if modules is not None and mname not in modules:
+            continue
+        n_mods += 1
+        for st in mi.tree.body:
+            if isinstance(st, (ast.FunctionDef, ast.AsyncFunctionDef, ast.ClassDef, ast.Import, ast.ImportFrom)):
+                continue
+            for c in ast.walk(st):
+                if isinstance(c, ast.Call):
+                    f = c.func
+                    nm = f.id if isinstance(f, ast.Name) else (f.attr if isinstance(f, ast.Attribute) else "")
+                    if nm in UNIQUE_MAKERS:
+                        out.append(Instance("R-IMPORTTIME", f"{mname}#importtime:{short(st, 40)}", BAD,
+                                            f"`{short(st, 70)}` evaluates {nm}() once, when the module is imported: what was meant to be unique per call is shared by every call and every thread of the process", f"{mi.relpath}:{st.lineno}"))
+    out.append(Instance("R-IMPORTTIME", f"{'+'.join(sorted(modules)) if modules else 'package'}#importtime-scan", OK if not any(i.status == BAD for i in out) else INFO,
+                        f"{n_mods} modules, no unique-name generator evaluated at import", ""))
     return out
